@@ -373,6 +373,56 @@ struct Scenario {
     }
   }
 
+  // ---- C09: server selection follows the failover policy.  Reference model fed by the public server-state callback stream.
+  void monitor_c09(RunResult &r) {
+    Sim &S = s; World &w = S.w;
+    if (has_faults || has_cancel || has_inject || S.server_sets.empty()) return;
+    if (S.opt.flags & ARES_FLAG_PRIMARY) return;
+    // merge the observable streams into one order
+    struct Ev { uint64_t ev; int kind; size_t idx; };   // 0 server-set, 1 server-state, 2 transmission
+    std::vector<Ev> evs; for (size_t i = 0; i < S.server_sets.size(); i++) evs.push_back({S.server_sets[i].ev, 0, i}); for (size_t i = 0; i < S.server_events.size(); i++) evs.push_back({S.server_events[i].ev, 1, i}); for (size_t i = 0; i < w.txs.size(); i++) evs.push_back({w.txs[i].ev, 2, i});
+    std::sort(evs.begin(), evs.end(), [](const Ev &a, const Ev &b) { return a.ev < b.ev; });
+    std::vector<std::string> cfg; std::map<std::string, size_t> fails; std::map<std::string, int64_t> failed_at;
+    std::map<int, uint16_t> main_qid; std::map<std::string, const Tx *> last_tx_of_qid; std::map<std::string, size_t> outstanding_probe;
+    size_t checked = 0, after_failure = 0, probes = 0;
+    std::set<int> tcp_reqs; for (auto &t : w.txs) if (t.tcp && t.req >= 0) tcp_reqs.insert(t.req);
+    auto addr_of = [&](const Tx &t) -> std::string { for (auto &k : w.socks) if (k.fd == t.fd) return k.remote.str(); return ""; };
+    for (auto &e : evs) {
+      if (e.kind == 0) { auto &nl = S.server_sets[e.idx].list; std::map<std::string, size_t> nf; for (auto &x : nl) nf[x] = fails.count(x) ? fails[x] : 0; fails = nf; cfg = nl; continue; }
+      if (e.kind == 1) { const ServerEv &se = S.server_events[e.idx]; if (!fails.count(se.server)) { fail(r, "C09.state-event-for-unconfigured-server", se.server); continue; } if (se.success) fails[se.server] = 0; else { fails[se.server]++; failed_at[se.server] = se.t; } continue; }
+      const Tx &t = w.txs[e.idx]; if (!t.decodable || t.req < 0) continue;
+      std::string dest = addr_of(t); if (dest.empty()) continue;
+      auto rq = S.reqs.find(t.req); if (rq == S.reqs.end()) continue; const Req &q = rq->second;
+      bool single = q.kind == "query" || q.kind == "send" || q.kind == "lquery" || q.kind == "lsend"; if (!single) continue;
+      if (tcp_reqs.count(t.req)) continue;   // TCP writes happen after the decision (and after later decisions): order on the wire says nothing
+      if (!main_qid.count(t.req)) main_qid[t.req] = t.qid;
+      std::string qk = std::to_string(t.req) + "/" + std::to_string(t.qid);
+      if (t.qid != main_qid[t.req]) {
+        // a probe copy: only to a failed server whose retry delay has passed, one at a time per server, never before the user's own transmission
+        { const Tx *pp = last_tx_of_qid.count(qk) ? last_tx_of_qid[qk] : nullptr; last_tx_of_qid[qk] = &t; if (pp && pp->edns && !t.edns) continue; }   // the probe's own EDNS-downgrade resend stays on its server
+        probes++; r.counters["c09.probe_copies"]++;
+        if (!fails.count(dest) || fails[dest] == 0) fail(r, "C09.probe-to-healthy-server", "request " + std::to_string(t.req) + ": a second copy (id " + std::to_string(t.qid) + ") was sent to " + dest + " which has no recorded failures");
+        else if (failed_at.count(dest) && t.t - failed_at[dest] < (int64_t)S.opt.failover_delay * 1000 && S.opt.failover_chance >= 0) fail(r, "C09.probe-before-retry-delay", "probe to " + dest + " " + std::to_string((t.t - failed_at[dest]) / 1000) + "ms after its last failure; retry delay " + std::to_string(S.opt.failover_delay) + "ms");
+        if (S.opt.failover_chance == 0) fail(r, "C09.probe-although-disabled", "request " + std::to_string(t.req));
+        for (uint32_t ser : q.serials) if (t.serial && ser == t.serial) fail(r, "C09.probe-reply-delivered-to-user", "request " + std::to_string(t.req) + " received the reply to its probe copy");
+        continue;
+      }
+      const Tx *prev = last_tx_of_qid.count(qk) ? last_tx_of_qid[qk] : nullptr; last_tx_of_qid[qk] = &t;
+      if (t.tcp) continue;                                     // a TCP write happens after the decision (connect completes later)
+      if (prev && prev->edns && !t.edns) continue;             // EDNS downgrade: stays on the same server by design
+      if (cfg.empty() || !fails.count(dest)) continue;
+      size_t mn = (size_t)-1; for (auto &x : cfg) mn = std::min(mn, fails[x]);
+      std::string ctx = "request " + std::to_string(t.req) + " transmission #" + std::to_string(t.seq) + " went to " + dest + " (consecutive failures " + std::to_string(fails[dest]) + "); servers:"; for (auto &x : cfg) ctx += " " + x + "=" + std::to_string(fails[x]);
+      checked++; bool any_fail = false; for (auto &x : cfg) if (fails[x]) any_fail = true; if (any_fail && cfg.size() >= 2) after_failure++;
+      if (fails[dest] != mn) { fail(r, "C09.not-a-least-failed-server", ctx); continue; }
+      if (!S.opt.rotate) { std::string first; for (auto &x : cfg) if (fails[x] == mn) { first = x; break; } if (dest != first) fail(r, "C09.not-first-in-configuration-order", ctx + "; first least-failed is " + first); }
+    }
+    // each accepted answer restores the server, each timed-out attempt demotes it
+    for (auto &kv : S.reqs) { const Req &q = kv.second; if (q.calls != 1 || q.status != ARES_SUCCESS) continue; for (uint32_t ser : q.serials) for (auto &p : w.provs) if (p.serial == ser && p.genuine && p.tx != (size_t)-1 && !has_reconfig) { const Tx &t = w.txs[p.tx]; if (t.req != q.id) continue; std::string dest = addr_of(t); bool ok = false; for (auto &se : S.server_events) if (se.success && se.server == dest && se.t == q.t_end) ok = true; if (!ok && (q.kind == "query" || q.kind == "send")) fail(r, "C09.success-not-recorded", "request " + std::to_string(q.id) + " was answered by " + dest + " but no success was reported for that server"); } }
+    r.counters["c09.selections_checked"] += checked; r.counters["c09.selections_after_failures"] += after_failure;
+    if (prop == "C09" && after_failure > 0) r.nontrivial = true;
+  }
+
   // ---- C08: soundness of cache hits (a miss is always allowed)
   void monitor_c08(RunResult &r) {
     Sim &S = s; World &w = S.w;
@@ -430,6 +480,7 @@ struct Scenario {
     monitor_c20(r);
     if (prop == "C08" || prop == "C05") monitor_c08(r);
     if (prop == "C12" || prop == "C01") monitor_c12(r);
+    if (prop == "C09") monitor_c09(r);
     if (prop == "C13") monitor_c13(r);
     summarise(r);
     // non-triviality for C01 (DESIGN 5, C01)
